@@ -539,9 +539,7 @@ func (e *Engine) callByContract(st *State, fn *ssa.Function, ct *Contract, args 
 		}
 	}
 	if ct.Flags["modifies"] == "db" {
-		st.g.Docs = e.fresh(st, "docs.after."+ct.Short, SDocs)
-		st.g.BucketLastCas = e.fresh(st, "blc.after."+ct.Short, SInt)
-		st.g.CollLastCas = e.fresh(st, "clc.after."+ct.Short, SColls)
+		e.havocDB(st, "after."+sanitize(ct.Short))
 	}
 	// results: each error result is either nil or an opaque error
 	sig := fn.Signature
@@ -655,6 +653,9 @@ func (e *Engine) genericLoopHeader(st *State, fr *Frame, b *ssa.BasicBlock) (han
 		e.addSideObl(st, invs[i], "entry", g)
 	}
 	choices := e.havocLoopTargets(st, fr, b)
+	if e.loopTouchesDB(b) {
+		e.havocDB(st, "loophead")
+	}
 	for _, h := range havocs {
 		if c, ok := e.havocLvalue(st, fr, h.Node); ok {
 			choices = append(choices, c...)
@@ -885,7 +886,7 @@ func usesTrace(n *rNode, ct *Contract) bool {
 		switch n.Text {
 		case "count", "iter", "callarg", "callpos", "pushpos", "pushes", "lastpushed", "delivered", "nolocks", "held",
 			"sqlAllInTxn", "writesAllInTxn", "oneTxn", "casDrawnInTxn", "lockedThroughout", "postsAfterCommit", "stmtsScoped",
-			"tracepos", "scanned", "callret", "callrecv", "rangekey", "cursorWhere", "cursorOrderBy", "cursorCount", "cursorRow", "cursorId", "lenlist", "intxn":
+			"tracepos", "scanned", "callret", "callrecv", "rangekey", "updkey", "updval", "cbret", "cursorWhere", "cursorOrderBy", "cursorCount", "cursorRow", "cursorId", "lenlist", "intxn":
 			return true
 		}
 	case "id":
@@ -929,6 +930,53 @@ func loopWritesMapOfType(header *ssa.BasicBlock, mt *types.Map) bool {
 							return true
 						}
 					}
+				}
+			}
+		}
+	}
+	return false
+}
+
+// havocDB forgets the content of the tables and assumes the declared database invariant for every row.
+func (e *Engine) havocDB(st *State, why string) {
+	st.g.Docs = e.fresh(st, "docs."+why, SDocs)
+	st.g.BucketLastCas = e.fresh(st, "blc."+why, SInt)
+	st.g.CollLastCas = e.fresh(st, "clc."+why, SColls)
+	e.assumeDBInv(st)
+}
+
+func (e *Engine) assumeDBInv(st *State) {
+	if e.contracts == nil || e.contracts.dbInv == nil {
+		return
+	}
+	docs := st.g.Docs
+	node := e.contracts.dbInv
+	specs := e.contracts.specs
+	st.addInst(SDocId, func(s *State, idx Term) Term {
+		env := &rEnv{e: e, pre: s, post: s, vars: map[string]Value{"r": sym(Select(docs, idx, SRow))}, typs: map[string]types.Type{}, specs: specs}
+		t := env.term(node)
+		if env.err != nil {
+			return TTrue
+		}
+		return t
+	})
+}
+
+// loopTouchesDB: does the loop body call a function whose contract declares modifies=db, or a client callback?
+func (e *Engine) loopTouchesDB(header *ssa.BasicBlock) bool {
+	for b := range loopBlocks(header) {
+		for _, ins := range b.Instrs {
+			call, ok := ins.(*ssa.Call)
+			if !ok {
+				continue
+			}
+			if fn := call.Call.StaticCallee(); fn != nil {
+				if ct := e.contracts.lookup(fnName(fn)); ct != nil && ct.Flags["modifies"] == "db" {
+					return true
+				}
+			} else if !call.Call.IsInvoke() {
+				if _, isBuiltin := call.Call.Value.(*ssa.Builtin); !isBuiltin && e.callbacksWriteDB {
+					return true
 				}
 			}
 		}
